@@ -491,6 +491,9 @@ fn single_timestamp(mode: ModeK, use_utc: bool) -> Result<(u64, u64), Fail> {
         .format(flexi_logger::opt_format)
         .write_mode(mode.write_mode())
         .add_writer("X", Box::new(extra.clone()))
+        // the coloured variants of the format functions render the same timestamp
+        .format_for_stderr(flexi_logger::colored_opt_format)
+        .format_for_stdout(flexi_logger::colored_detailed_format)
         .duplicate_to_stderr(Duplicate::All)
         .duplicate_to_stdout(Duplicate::All)
         .error_channel(ErrorChannel::File(env.err.clone()));
@@ -514,7 +517,23 @@ fn single_timestamp(mode: ModeK, use_utc: bool) -> Result<(u64, u64), Fail> {
     drop(logger);
     drop(handle);
     env.leave();
-    let stamp = |l: &str| l.split(']').next().unwrap_or("").trim_start_matches('[').to_string();
+    let stamp = |l: &str| {
+        // without ANSI escape sequences
+        let mut plain = String::new();
+        let mut it = l.chars();
+        while let Some(c) = it.next() {
+            if c == '\u{1b}' {
+                for d in it.by_ref() {
+                    if d == 'm' {
+                        break;
+                    }
+                }
+            } else {
+                plain.push(c);
+            }
+        }
+        plain.split(']').next().unwrap_or("").trim_start_matches('[').to_string()
+    };
     let file_lines: Vec<String> = String::from_utf8_lossy(&std::fs::read(env.dir.join("app.log")).unwrap_or_default()).lines().map(String::from).collect();
     let second_lines: Vec<String> = String::from_utf8_lossy(&std::fs::read(second_dir.join("second.log")).unwrap_or_default()).lines().map(String::from).collect();
     let out_lines: Vec<String> = String::from_utf8_lossy(&out).lines().map(String::from).collect();
@@ -731,6 +750,8 @@ fn replay(case: &Value) -> Vec<Violation> {
 
 /// `fxv child c20utc`: the single-timestamp clause with use_utc in a fresh process.
 pub fn child_utc() -> i32 {
+    // a local time zone that differs from UTC: an output that ignores use_utc shows
+    std::env::set_var("TZ", "Asia/Tokyo");
     crate::hooks::init();
     crate::quiet_panics();
     match run_isolated(Duration::from_secs(60), || single_timestamp(ModeK::Direct, true)) {
